@@ -6,10 +6,13 @@ Race exactness on the WAIT fragment, part 2: definitions.
 * what the invariants read of a world of the twin beyond `Proofs/RaceTwin.lean`: `unparkCaus`, the `park` token,
   `senderSync` / `receiverSync` of a channel;
 * `pendClk`: the clock a thread that is in the middle of a waiting operation may already have acquired, ahead of
-  the reference step that will acquire it (`Notify::notify`, `Thread::unpark` let the woken thread join the waker's
-  causality at once);
-* the twin-side invariant `TwinInv2`, the links `LinkT2` / `LinkR2`, the relation `RC2`;
-* the run-level condition `staleOk` (see `Props/Race2.lean`: without it the theorem is false) and `okRun2`.
+  the reference step that will acquire it (`Thread::unpark`, `Set::wake` of the condvar let the woken thread join
+  the waker's causality at once; `Notify::notify` no longer does — repair of finding F26 —, so that for `nWait` and
+  `join` the lower bound is in fact attained; the sandwich is kept as it is, it is still an invariant);
+* the twin-side invariant `TwinInv2`, the links `LinkT2` / `LinkR2`, the relation `RC2`.
+
+The run-level condition is `Refine2.okRun` alone: the additional condition `staleOk` of the unrepaired model (finding
+F26: `Notify::notify` handed the notifier's causality to another pending notifier) is gone with the repair.
 -/
 import LoomVerif.Proofs.Race2Clocks
 import LoomVerif.Proofs.RaceStep
@@ -141,58 +144,6 @@ theorem WF3.noDrop {p : Prog} (h : WF3 p) {a k q : Nat} (hop : (p.threads.getD a
   have := h.2 a ha k hk
   rw [hop] at this
   simp at this
-
-/-! ### the run-level conditions -/
-
-/-- when the active thread is about to run the effect of `Notify::notify` on `Notify` `n`, every OTHER thread whose
-pending operation names that object is waiting in `nWait n` (and not: between the branch point and the effect of
-its own `nNotify n`) -/
-def staleOk (w : World) : Bool :=
-  match opAt2 w with
-  | some (.nNotify n) =>
-    (w.ctlOf w.tid).stage == 0 ||
-    (List.range w.ctl.length).all fun i =>
-      i == w.tid || !(topo w i == some (w.notifyObj n)) ||
-        (decide (opAtI w i = some (.nWait n)) && (w.ctlOf i).stage == 1)
-  | _ => true
-
-/-- `Refine2.resumeOk` and `staleOk` hold at every step the run takes.  Computable (by running the twin). -/
-def okRun2 : Nat → World → Bool
-  | 0, _ => true
-  | fuel + 1, w =>
-    if !w.ths.isActive then true
-    else resumeOk w && staleOk w &&
-      match w.stepActive with
-      | .error _ => true
-      | .ok w' => okRun2 fuel w'
-
-/-- `okRun2` for `runIter` -/
-def okIter2 (prog : Prog) (exec : Exec) (fuel : Nat := 200000) : Bool :=
-  match World.init prog exec with
-  | .ok w0 => okRun2 fuel w0
-  | .error _ => false
-
-theorem okRun2_okRun : ∀ (fuel : Nat) (w : World), okRun2 fuel w = true → okRun fuel w = true := by
-  intro fuel
-  induction fuel with
-  | zero => intro w _; rfl
-  | succ fuel ih =>
-    intro w h
-    unfold okRun2 at h
-    unfold okRun
-    split
-    · rfl
-    · next hact =>
-      rw [if_neg hact] at h
-      simp only [Bool.and_eq_true] at h
-      simp only [Bool.and_eq_true]
-      refine ⟨h.1.1, ?_⟩
-      have h2 := h.2
-      split
-      · rfl
-      · next w' hw' =>
-        rw [hw'] at h2
-        exact ih w' h2
 
 /-! ### the conclusion of the step theorem -/
 
